@@ -57,16 +57,25 @@ def consistency_rule(F, rep):
     ents = {e["name"]: e for e in peppifmt.writer_entries(F)}
     def payload(nm):
         e = ents.get(nm)
-        return tir.pretty(e["payload"]) if e else None
-    rep.ob("consistent.start", payload("start.json") == "&serde_json::to_vec(&game.start)?" and payload("start.raw") == "&game.start.bytes.0", peppifmt.WRITE, "start",
-           "start.json / start.raw must both be rendered from game.start: %s / %s" % (payload("start.json"), payload("start.raw")))
-    rep.ob("consistent.end", payload("end.json") == "&serde_json::to_vec(end)?" and payload("end.raw") == "&end.bytes.0", peppifmt.WRITE, "end",
-           "end.json / end.raw must both be rendered from the same end value: %s / %s" % (payload("end.json"), payload("end.raw")))
-    rep.ob("consistent.metadata", payload("metadata.json") == "&serde_json::to_vec(&game.metadata)?", peppifmt.WRITE, "metadata", "metadata.json must be the JSON rendering of game.metadata")
+        return peppifmt.payload_source(F, e) if e else None
+    sj, sr = payload("start.json"), payload("start.raw")
+    rep.ob("consistent.start", sj == ("json", "game.start") and sr == ("raw", "game.start.bytes.0"), peppifmt.WRITE, "start",
+           "start.json / start.raw must both be rendered from game.start: %s / %s" % (sj, sr))
+    ej, er = payload("end.json"), payload("end.raw")
+    # the end value is bound by `if let Some(end) = &game.end` / `match &game.end { Some(end) => .. }`
+    ok = bool(ej and er and ej[0] == "json" and er[0] == "raw" and ej[1] and er[1] == ej[1] + ".bytes.0")
+    if ok:
+        guards = [g for g in (ents.get("end.json") or {}).get("guards", []) if "game.end" in g[1]]
+        ok = bool(guards) and ej[1].split(".")[0] != "game"
+    rep.ob("consistent.end", ok, peppifmt.WRITE, "end", "end.json / end.raw must both be rendered from the same end value bound from game.end: %s / %s" % (ej, er))
+    rep.ob("consistent.metadata", payload("metadata.json") == ("json", "game.metadata"), peppifmt.WRITE, "metadata", "metadata.json must be the JSON rendering of game.metadata; got %s" % (payload("metadata.json"),))
     # the reader rebuilds start/end through the same decoders the .slp reader uses
     G = reach.Graph(F)
     for fn, dec in (("io::peppi::de::read_peppi_start", "io::slippi::de::game_start"), ("io::peppi::de::read_peppi_end", "io::slippi::de::game_end")):
         rep.ob("consistent.decoder", dec in G.edges(fn), fn, "decoder", "%s must decode through %s" % (fn, dec))
+    # .. from the whole raw entry: what start.json / end.json render is what the reader reconstructs
+    from props import C02
+    C02.raw_decoder_rule(F, rep, "consistent.whole-entry")
 
 
 def determinism_rule(F, rep):
